@@ -1,5 +1,6 @@
 import FcpptModel.Prelude.Proto
 import FcpptModel.Model.C03.Shapes
+import FcpptModel.Spec.C03
 /-!
 Driver for C03.  Operations (one per line); an argument token `~` stands for the empty string.
 `<shape>` is a shape number of `Shapes.lean`, optionally followed by `@` and a comma-separated list of option names
@@ -20,6 +21,9 @@ own `option_names()`).
 * `perm <shape> <tok>*`  — digest over the `run` lines of all orders of the tokens (every remaining token in turn as the next one)
 * `weave <shape> <e> <e tokens> <base tokens>*` — digest over all merges of the two vectors that keep both orders
      (woven-in token first)
+* `oncmp <name>*` — `operator==` and `operator<` of `option_name` on every ordered pair of the names (`--long` / `-short`):
+     one group per left operand, two characters per right operand (`=`/`.`, `<`/`.`)
+* `isopt <tok>*` — `fcppt::options::is_option` of every token (`1`/`0`)
 * `info <shape>` — `flag_names()` / `option_names()` of every parser object the harness constructs, in construction order,
      its `usage()` string, and name and help text of every `sub_command` (`F=… O=… U=TEXT | … | C=name T=TEXT|none | …`)
 -/
@@ -70,8 +74,14 @@ def showFlagNames (s : List String) : String :=
 def showOptionNames (s : Ctx) : String :=
   if s.isEmpty then "-" else ",".intercalate (s.map fun (n, sh) => encodeTok n ++ (if sh then ":s" else ":l"))
 
+/-- the `long_name()` / `short_name()` accessors of `flag`, `switch_`, `unit_switch` -/
+def accessorNames : OP → String
+  | .flag _ sh lg _ _ _ | .unitSwitch _ sh lg => s!" N={encodeTok lg}/" ++ (match sh with | none => "none" | some s => encodeTok s)
+  | _ => ""
+
 def nodeLine : Node → String
-  | .parser p => s!"F={showFlagNames p.flagNameSet} O={showOptionNames p.optionNameSet} U={esc p.usage}"
+  | .parser p => s!"F={showFlagNames p.flagNameSet} O={showOptionNames p.optionNameSet} U={esc p.usage}" ++ accessorNames p
+  | .erased p => s!"F={showFlagNames p.flagNameSet} O={showOptionNames p.optionNameSet} U={esc p.usage}"
   | .sub n h => s!"C={encodeTok n} T=" ++ (match h with | none => "none" | some t => esc t)
 
 def rawPart (f : Nat) (p : OP) (args : List String) (ctx : Option Ctx) : String :=
@@ -164,6 +174,13 @@ def guarded (s : Shape) (k : Unit → String) : String :=
 
 def handle (toks : List String) : String :=
   match toks with
+  | "oncmp" :: names =>
+    match names.mapM ctxName with
+    | none => "bad-op"
+    | some ns =>
+      String.join ("N" :: ns.map fun a => " " ++ String.join (ns.map fun b =>
+        (if a == b then "=" else ".") ++ (if optLt a b then "<" else ".")))
+  | "isopt" :: toks => "I " ++ String.join (toks.map fun t => if flagLike (decodeTok t) then "1" else "0")
   | "run" :: sid :: args | "hang" :: sid :: args =>
     match getShape sid with
     | some (s, c) => runLine s c (args.map decodeTok)
